@@ -114,7 +114,7 @@ def model_specs(tier, v):
                     specs.append(dict(kind="model", mtype=mt, v=v, model=model, sources=mix, pars=pars, labels=labels))
     for be in ("rectangle", "trapezoid", "simpson", "numerical"):
         specs.append(dict(kind="model", mtype="hist", v=v, model="normal", sources=[["y-rel", True]], pars="P1", labels=False, bin_evaluation=be))
-    specs.append(dict(kind="model", mtype="hist", v=v, model="expod", sources=[["y-rel", True]], pars="P1", labels=False, bin_evaluation="antiderivative"))
+    specs.append(dict(kind="model", mtype="hist", v=v, model="parab", sources=[["y-rel", True]], pars="P1", labels=False, bin_evaluation="antiderivative"))
     return specs
 
 
@@ -224,7 +224,7 @@ def fit_specs(tier, v):
         add(ftype="hist", model="normal", cost="chi2", sources=[["y-abs", True]], pstate="none", state=st, labels=False, hist_data="set")
         for be in ("rectangle", "numerical"):
             add(ftype="hist", model="normal", cost=None, sources=[], pstate="none", state=st, labels=False, bin_evaluation=be)
-        add(ftype="hist", model="expod", cost=None, sources=[], pstate="none", state=st, labels=False, bin_evaluation="antiderivative")
+        add(ftype="hist", model="parab", cost=None, sources=[], pstate="none", state=st, labels=False, bin_evaluation="antiderivative")
         add(ftype="hist", model="normal", cost=None, sources=[], pstate="none", state=st, labels=False, density=False)
     # tiny-magnitude data and uncertainties (data O(1e-9), uncertainties O(1e-10))
     for ft, model in (("xy", "lin_nano"), ("indexed", "idx2_nano")):
